@@ -1,8 +1,8 @@
 SPECIFICATION GenSpec
 CONSTANTS
-  Sessions = {"M1"}
-  Legacy = {}
-  InitOn = {"M1"}
+  Sessions = {"L1", "M1"}
+  Legacy = {"L1"}
+  InitOn = {"L1", "M1"}
   InitSub = {}
   Kinds = {"tools"}
   NotifOf <- NotifStd
@@ -10,17 +10,17 @@ CONSTANTS
   Want <- WantAll
   CapOff = {}
   CapMode <- ModeInferred
-  InitSize <- Size3
-  MaxSize = 3
-  Dirs = {"mod"}
-  SendGate = "configured"
-  TTLPos = TRUE
+  InitSize <- Size1
+  MaxSize = 2
+  Dirs = {"add", "rm", "clear"}
+  SendGate = "effective"
+  TTLPos = FALSE
   D = 2
-  MaxTime = 3
-  MaxChanges = 1
+  MaxTime = 4
+  MaxChanges = 2
   MaxUpdates = 0
-  MaxCalls = 2
-  NPages = 2
+  MaxCalls = 0
+  NPages = 1
   ListenOwns = TRUE
   ResubRace = TRUE
   GenCheck = TRUE
@@ -31,13 +31,13 @@ CONSTANTS
   MaxListens = 0
   FailUndo = TRUE
   Stepwise = TRUE
-  Gates = TRUE
-  GateNames = {"put"}
+  Gates = FALSE
+  GateNames = {"inv", "usr", "put"}
   ClientFirst = FALSE
   MinSteps = 1
-  MaxSteps = 7
+  MaxSteps = 8
   Bias = FALSE
   Script <- ScriptNone
-  GenOps = {"change", "tchange", "updated", "list", "tick", "hold", "release"}
-INVARIANTS Export
+  GenOps = {"change", "tick"}
+INVARIANTS LeadNeverLost
 CHECK_DEADLOCK FALSE
